@@ -396,6 +396,9 @@ LIB_NAMES = ["a.rtp", "a.ff", "a.itp", "a.bib", "a.bld", "a.txt", "a", "a.FF", "
              "a.", "b.bld.ff", "README"]
 
 
+DOCUMENTED_PARSERS = dict(ff=dict(rtp="read_rtp", ff="read_ff", itp="read_polyply", bib="read_bib"), bld=dict(bld="read_build_file"))
+
+
 def _choice_of_real(path, table, is_lib):
     from polyply.src import load_library
     try:
@@ -420,6 +423,13 @@ def run_library_get_parser(ctx):
         path = pathlib.Path("/nowhere") / name
         reqs.append(dict(op="getparser", table=tname, ext=path.suffix[1:], islib=is_lib))
         impl.append(_choice_of_real(path, tables[tname], is_lib))
+        # oracle, written down independently of the source: the documented file formats and the documented treatment
+        # of files nobody can read (user file: IOError; library file: skipped)
+        known = DOCUMENTED_PARSERS[tname].get(path.suffix[1:])
+        want = dict(parser=known) if known else ("skip" if is_lib else "IOError")
+        if impl[-1] != want and not any(f["shape"] == "wrong-parser-for-suffix" for f in ctx.failures):
+            ctx.oracle_fail("wrong-parser-for-suffix", "get_parser(%s, %s parsers, is_lib_file=%s) gives %s, expected %s"
+                            % (name, tname, is_lib, impl[-1], want), dict(kind="library", stream="get_parser", name=name, table=tname, is_lib=is_lib))
     answers = ctx.driver.ask(reqs)
     model = [_choice_of_model(a) for a in answers]
     bad = [(c, i, m) for c, i, m in zip(combos, impl, model) if i != m][:5]
@@ -500,7 +510,7 @@ def run_library_load_ff(ctx, count):
     that shuffling the extra files / the libraries changes nothing when no two files define the same name"""
     from polyply.src import load_library
     rng = ctx.rng
-    names = ["PEO", "PS", "PMA", "P3HT", "PVA", "PE"]
+    all_block_names = ["PEO", "PS", "PMA", "P3HT", "PVA", "PE"]
     reqs, todo = [], []
     saved = load_library.DATA_PATH
     try:
@@ -509,6 +519,7 @@ def run_library_load_ff(ctx, count):
                 root = pathlib.Path(tmp)
                 load_library.DATA_PATH = str(root)
                 clash = idx % 3 == 0
+                names = list(all_block_names)
                 free = list(names)
                 rng.shuffle(free)
                 tagno = [0]
@@ -523,7 +534,9 @@ def run_library_load_ff(ctx, count):
                         out.append((name, "T%d" % tagno[0]))
                     return out
                 defs, libnames, extra = {}, [], []
-                for lib in rng.sample(["libA", "libB", "libC"], rng.randint(0, 2)):
+                if clash:
+                    names = names[:2]           # few names: the same block in several libraries / extra files
+                for lib in rng.sample(["libA", "libB", "libC"], rng.randint(2, 3) if clash else rng.randint(0, 2)):
                     (root / lib).mkdir()
                     libnames.append(lib)
                     taken = set()
@@ -621,9 +634,32 @@ def run_links_relabel(ctx, count):
     import c02
     rng = ctx.rng
     reqs, todo = [], []
+    pairs = []
     for _ in range(count):
         case = G.gen_case(rng, max_res=ctx.budget(6, 9))
+        pairs.append((case, _transform_link_case(rng, case)))
+    # "the order of definitions that do not define the same interaction": links that differ only in the `linktype`
+    # of their residue edge (alpha1->6 vs alpha1->3 connections) write bonds between different residue pairs; the
+    # twin is the same force field with the link definitions reversed (and the graph relabelled)
+    for _ in range(ctx.budget(20, 200)):
+        nres = rng.randint(3, 6)
+        labels = ["a", "b", None]
+        block = dict(name="A", nrexcl=1, syntax="ff", atoms=[dict(name="BB", atype="P1", cg=1), dict(name="SC1", atype="P2", cg=1)],
+                     ixns=[["bonds", [0, 1], ["1", "0.3", "100"], {}]])
+        nodes = [[i, i + 1, "A"] for i in range(nres)]
+        edges = [[rng.randrange(i), i, rng.choice(labels)] for i in range(1, nres)]
+        links = []
+        for idx, label in enumerate(labels):
+            edge = [["BB", ">BB", label]] if label is not None else []
+            links.append(dict(atoms=[["BB", {"resname": "A"}], [">BB", {"resname": "A"}]],
+                              ixns=[["bonds", ["BB", ">BB"], ["1", "0.%d" % (4 + idx), str(200 + idx)], {}]],
+                              edges=edge, nonedges=[], patterns=[]))
+        rng.shuffle(links)
+        case = dict(blocks=[block], links=links, graph=dict(nodes=nodes, edges=edges))
         variant = _transform_link_case(rng, case)
+        variant["links"] = list(reversed(variant["links"]))
+        pairs.append((case, variant))
+    for case, variant in pairs:
         try:
             inp_a, out_a, _ = c02.run_real(case)
             inp_b, out_b, _ = c02.run_real(variant)
@@ -651,7 +687,7 @@ def run_links_relabel(ctx, count):
                             % (", ".join(diff), only_a, only_b, case["graph"], variant["graph"]), replay)
         nevents = ans_a.get("nevents", 0)
         ctx.case(("links-relabel", json.dumps(replay, sort_keys=True)) if nevents >= 1 else None, kind="links-relabel",
-                 accepted=("0" if nevents == 0 else "1-3" if nevents <= 3 else "4+"))
+                 links_accepted=("0" if nevents == 0 else "1-3" if nevents <= 3 else "4+"))
 
 
 def source_anchor(ctx):
